@@ -740,3 +740,19 @@ def is_derived_body(body):
         sp = blk["term"].get("sp")
         return bool(sp and len(sp) > 1 and sp[1].startswith("#[derive"))
     return False
+
+
+def check_regions(ctx, rule, label, paths, it, rows, where, allow_opaque=False):
+    """Compare an abstract-interpretation result with a spec table.
+    rows: [(row name, zone constraints, predicate(path) -> bool, expected text)]."""
+    for name, cons, pred, text in rows:
+        ps = absint.paths_in_region(paths, cons)
+        ok = bool(ps)
+        det = []
+        for p in ps:
+            good = pred(p) and (allow_opaque or not p.conds)
+            ok = ok and good
+            if not good or len(det) < 2:
+                det.append(dict(p.describe(), verdict="ok" if good else "MISMATCH"))
+        ctx.ob(rule, "%s:%s" % (label, name), ok, "%s: %s ⇒ %s" % (label, name, text), where=where,
+               detail={"expected": text, "paths": det, "imprecision": it.imprecise[:5]})
